@@ -16,6 +16,7 @@ import (
 var propPkgs = map[string][]string{
 	"C12": {"pkg/convert"},
 	"C11": {"pkg/encoding", "pkg/encoding/vararray"},
+	"C01": {"pkg/convert", "|", "pkg/encoding", "pkg/encoding/vararray"},
 	"C02": {"banyand/measure"},
 	"C03": {"banyand/measure"},
 	"C09": {"pkg/query/logical/measure", "pkg/query/executor", "pkg/query/logical/trace", "pkg/iter"},
